@@ -82,6 +82,11 @@ pub trait Prop: 'static {
     fn random_cases(tier: Tier) -> u64;
     /// bounded exhaustive part; every thread runs the enumeration and executes its share
     fn enumerate(_tier: Tier, _emit: &mut dyn FnMut(Self::Case)) {}
+    /// too expensive for the slow substrates (the Miri batch skips such cases; the native
+    /// debug / release / ASan workers run them)
+    fn heavy(_case: &Self::Case) -> bool {
+        false
+    }
     /// human-readable bound of the enumeration ("" if there is none)
     fn bound(_tier: Tier) -> String {
         String::new()
@@ -552,7 +557,7 @@ pub fn gen_batch<P: Prop>(tier: Tier, seed: u64, n: usize, out: &Path) {
         let mut i = 0u64;
         let mut taken = 0usize;
         P::enumerate(tier, &mut |c| {
-            if taken < take_enum && i as f64 >= next {
+            if taken < take_enum && i as f64 >= next && !P::heavy(&c) {
                 serde_json::to_writer(&mut f, &c).unwrap();
                 f.write_all(b"\n").unwrap();
                 next += step;
@@ -562,7 +567,10 @@ pub fn gen_batch<P: Prop>(tier: Tier, seed: u64, n: usize, out: &Path) {
         });
     }
     for _ in 0..(n - take_enum) {
-        let c = strategy.new_tree(&mut runner).expect("new_tree").current();
+        let mut c = strategy.new_tree(&mut runner).expect("new_tree").current();
+        while P::heavy(&c) {
+            c = strategy.new_tree(&mut runner).expect("new_tree").current();
+        }
         serde_json::to_writer(&mut f, &c).unwrap();
         f.write_all(b"\n").unwrap();
     }
